@@ -1,3 +1,3 @@
 SPECIFICATION Spec
-CONSTANT Full = FALSE
+CONSTANT Full = TRUE
 CHECK_DEADLOCK FALSE
